@@ -1,4 +1,14 @@
 import Xo.LayH
+import Xo.Drv.Util
+/-! line-protocol driver of the executable heap model (component `heap`): several buffers in contexts, existing objects as values
+
+  reset | buf <cap> <align> <ctx> | alloc <buf> <n> | grow <buf> <n> | type <name> <sexp>
+  new <type> <handle> <buf> <value>     value may contain (obj <handle>): copy construction / reference to an existing object
+  bind <handle> <path> <value>          assignment to a reference slot
+  set <handle> <path> <value>           assignment to any slot (as in the `lay` component)
+  deep <handle>                         canonical deep value
+-/
+namespace Drv.HeapD
 open CGen LayM
 structure St where
   types : List (String × Ty) := []
@@ -12,7 +22,7 @@ partial def hvOfS (objs : List (String × (Nat × Ty × Nat))) : SExp → Option
  | .list (.atom "list" :: xs) => do pure (.list (← xs.mapM (hvOfS objs)))
  | .list [.atom "tagged", .atom n, v] => (hvOfS objs v).map (.tagged n)
  | e => (vinOfS e).map .plain
-def mems (h : Heap) : String := " ".intercalate (h.bufs.toList.map fun b => s!"{b.alloc.capacity}:{hexOf b.mem}")
+def mems (h : Heap) : String := " ".intercalate (h.bufs.toList.map fun b => s!"{b.alloc.capacity}:{LayM.hexOf b.mem}")
 def parsePath (s : String) : List Step :=
   if s == "-" then [] else
   (s.splitOn "/").filterMap fun seg =>
@@ -51,15 +61,29 @@ def step (s : St) (line : String) : St × String :=
       | .ok (tt, a) => let h := hToBuffer tt v bi a s.heap; ({ s with heap := h }, s!"ok mems {mems h}")
       | .error e => (s, s!"err {e.str}")
     | _, _ => (s, "bad-op")
+  | ["grow", bi, n] =>
+    match bi.toNat?, n.toNat? with
+    | some bi, some k =>
+      let b := getBuf s.heap bi
+      let a' := Alloc.grow b.alloc k
+      let b' : Buf := { alloc := a', mem := b.mem ++ Array.replicate (a'.capacity - b.mem.size) 0 }
+      ({ s with heap := setBuf s.heap bi b' }, s!"ok mems {mems (setBuf s.heap bi b')}")
+    | _, _ => (s, "bad-op")
+  | "set" :: hname :: path :: rest =>
+    match s.objs.lookup hname, (parseS (tokenize (" ".intercalate rest))).bind (fun x => vinOfS x.1) with
+    | some (bi, t, o), some v =>
+      match follow (getBuf s.heap bi).mem t o (parsePath path) with
+      | .ok (tt, a) =>
+        let (b, e) := assign tt a v (getBuf s.heap bi)
+        let h := setBuf s.heap bi b
+        ({ s with heap := h }, (match e with | none => "ok" | some e => s!"err {e.str}") ++ s!" mems {mems h}")
+      | .error e => (s, s!"err {e.str} mems {mems s.heap}")
+    | _, _ => (s, "bad-op")
   | ["deep", hname] =>
     match s.objs.lookup hname with
     | some (bi, t, o) => (s, s!"val {deep (getBuf s.heap bi).mem t o}")
     | none => (s, "bad-op")
   | _ => (s, "bad-op")
-partial def loop (h : IO.FS.Stream) (s : St) : IO Unit := do
-  let line ← h.getLine
-  if line.isEmpty then return ()
-  let (s', out) := step s line
-  IO.println out
-  loop h s'
-def main : IO Unit := do loop (← IO.getStdin) {}
+
+def init : St := {}
+end Drv.HeapD
